@@ -260,16 +260,9 @@ class World(StackWorld):
             cfg["local_max"] = 2 ** 24
         sess = self.new_session("E")
         e, peer = self.build_stack_raw("rs", is_server, lambda: sess, [make_ser(ser)], opts)
-        self.start(e)
-        self.pump_all()
-        hs = bytes([0x7F, (exp << 4) | RS_ID[ser], 0, 0])
-        self.peer.send(hs)
-        self.pump_all()
-        if sess.opens != 1:
-            raise HarnessError("rs-limits: session not attached")
         self.peer_limit = 2 ** (9 + exp)
         self.local_announced = 2 ** _ceil_log2(cfg["local_max"])
-        self.base = len(self.peer.received)
+        self.base = 4  # the endpoint's own handshake octets come first on the wire
         self.app_msgs = []
         self.limit = {"E": self.peer_limit}
         from autobahn.wamp import message as M
@@ -280,6 +273,19 @@ class World(StackWorld):
             if target > 300000:
                 target = 1000
             self.app_msgs.append(("e%d" % i, target))
+        if ch.flag("send-in-onOpen", 0.3):
+            # the session sends its first message from inside onOpen(): the peer's announcement is already in force
+            def on_open(transport):
+                self.run.probe("send-inside-onOpen")
+                self.limits_send()
+            sess.hooks["onOpen"] = on_open
+        self.start(e)
+        self.pump_all()
+        hs = bytes([0x7F, (exp << 4) | RS_ID[ser], 0, 0])
+        self.peer.send(hs)
+        self.pump_all()
+        if sess.opens != 1:
+            raise HarnessError("rs-limits: session not attached")
         # what the peer will send: frames around / beyond the local maximum
         self.peer_frames = []
         if ch.flag("peer-oversize", 0.6):
